@@ -55,12 +55,13 @@ type Config struct {
 
 // Ctx is the state of one check run.
 type Ctx struct {
-	Repo  string
-	Verif string
-	Prop  string
-	Tier  string
-	Seed  int64
-	Cfg   Config
+	RulePrefix string
+	Repo       string
+	Verif      string
+	Prop       string
+	Tier       string
+	Seed       int64
+	Cfg        Config
 
 	Fset   *token.FileSet
 	Pkgs   []*packages.Package
@@ -305,6 +306,10 @@ func FuncName(f *ssa.Function) string {
 
 // Ob records an obligation. The key is rule|function|construct; duplicates get a #n suffix.
 func (c *Ctx) Ob(rule, function, construct string, pos token.Pos) *Obligation {
+	// RulePrefix: while the rules of another property are run as premises of this one, they are filed under this name
+	if c.RulePrefix != "" {
+		rule = c.RulePrefix
+	}
 	key := rule + "|" + function + "|" + construct
 	c.seenKeys[key]++
 	if n := c.seenKeys[key]; n > 1 {
